@@ -154,7 +154,7 @@ int_harness!(atomic_i8_fetch_min, AtomicI8, std::sync::atomic::AtomicI8, i8, 3);
 int_harness!(atomic_u8_fetch_max, AtomicU8, std::sync::atomic::AtomicU8, u8, 2);
 //@H atomic_i16_fetch_sub @prop C12 @tier thorough @mode fast @cost 3 @timeout 3600 @funcs AtomicI16::new,AtomicI16::fetch_sub,AtomicI16::unsync_load,Atomic::rmw,Atomic::try_rmw,rt::Atomic::rmw,Numeric::into_u64,Numeric::from_u64 @bounds one operation after new; every i16 initial value and operand (full width); every valid ordering :: AtomicI16::fetch_sub returns what std's returns (including the Ok/Err shape) and leaves std's content, for all operand values including wrap-around and sign/width boundaries
 int_harness!(atomic_i16_fetch_sub, AtomicI16, std::sync::atomic::AtomicI16, i16, 1);
-//@H atomic_u8_compare_exchange @prop C12 @tier quick @mode fast @cost 3 @timeout 3600 @funcs AtomicU8::new,AtomicU8::compare_exchange,AtomicU8::unsync_load,Atomic::try_rmw,rt::Atomic::rmw,Numeric::into_u64,Numeric::from_u64 @bounds one operation after new; every u8 initial value and operands (full width); every valid success/failure ordering :: AtomicU8::compare_exchange returns what std's returns (Ok/Err shape and payload) and leaves std's content
+//@H atomic_u8_compare_exchange @prop C12 @tier thorough @mode fast @cost 3 @timeout 3600 @funcs AtomicU8::new,AtomicU8::compare_exchange,AtomicU8::unsync_load,Atomic::try_rmw,rt::Atomic::rmw,Numeric::into_u64,Numeric::from_u64 @bounds one operation after new; every u8 initial value and operands (full width); every valid success/failure ordering :: AtomicU8::compare_exchange returns what std's returns (Ok/Err shape and payload) and leaves std's content
 int_harness!(atomic_u8_compare_exchange, AtomicU8, std::sync::atomic::AtomicU8, u8, 9);
 // fetch_update is NOT encoded: its retry loop re-runs the whole modelled RMW per
 // unwinding (8 x ~0.5 M SSA steps) and needs four decisions; out of reach here.
